@@ -781,3 +781,40 @@ V('c17-mixin-order', 'C17', 'C17.R7',
   (LSF, "class ThreadedHTTPServer(socketserver.ThreadingMixIn, HTTPServer):", "class ThreadedHTTPServer(HTTPServer, socketserver.ThreadingMixIn):"), 'mixin-order')
 V('c17-header-not-latin1', 'C17', 'C17.R3b',
   (LSF, "            cim_error_details = quote(cim_error_details,\n                                      safe=HEADER_VALUE_SAFE_CHARS)\n", ""), 'latin1')
+
+# ---- round c, second batch -------------------------------------------------------
+V('c01-datetime-float-path', 'C01', 'C01.R12',
+  (TYP, "            days = self.timedelta.days\n", "            days = int(self.timedelta.total_seconds() / 86400)\n"), 'float-path')
+V('c03-content-length-of-str', 'C03', 'C03.R7',
+  (LSF, "        if isinstance(resp_body, str):\n            resp_body = resp_body.encode(\"utf-8\")\n\n        http_code = 200\n        self.send_response(http_code, http.client.responses.get(http_code, ''))\n        self.send_header(\"Content-Type\", \"text/xml\")\n        self.send_header(\"Content-Length\", str(len(resp_body)))\n        self.send_header(\"CIMExport\", \"MethodResponse\")\n        self.end_headers()\n        self.wfile.write(resp_body)",
+   "        http_code = 200\n        self.send_response(http_code, http.client.responses.get(http_code, ''))\n        self.send_header(\"Content-Type\", \"text/xml\")\n        self.send_header(\"Content-Length\", str(len(resp_body)))\n        self.send_header(\"CIMExport\", \"MethodResponse\")\n        self.end_headers()\n        self.wfile.write(resp_body.encode(\"utf-8\"))", 2), 'length-of-other-object')
+V('c02-ctor-check-on-array-size', 'C02', 'C02.R4',
+  (OBJ, "    if value is not None:\n        value_is_array = isinstance(value, (list, tuple))\n",
+   "    if array_size is not None and array_size < 0:\n        raise ValueError(\"negative array_size\")\n    if value is not None:\n        value_is_array = isinstance(value, (list, tuple))\n"), 'ValueError')
+V('c03-truthiness-vs-none', 'C03', 'C03.R3b',
+  (OBJ, "        if self.namespace is None or ignore_namespace:\n            return instancename_xml\n", "        if not self.namespace or ignore_namespace:\n            return instancename_xml\n"), 'child-sequence')
+V('c05-eq-converts-other', 'C05', 'C05.R9',
+  (TYP, "        if not isinstance(other, CIMDateTime):\n            return False\n        return (_eq_item(self.datetime, other.datetime) and",
+   "        if isinstance(other, str):\n            other = CIMDateTime(other)\n        if not isinstance(other, CIMDateTime):\n            return False\n        return (_eq_item(self.datetime, other.datetime) and"), 'rebinds')
+V('c05-eq-foreign-type', 'C05', 'C05.R9',
+  (TYP, "        if not isinstance(other, CIMDateTime):\n            return False\n        return (_eq_item(self.datetime, other.datetime) and",
+   "        if isinstance(other, str):\n            return str(self) == other\n        if not isinstance(other, CIMDateTime):\n            return False\n        return (_eq_item(self.datetime, other.datetime) and"), 'foreign-type')
+V('c07-colon-precheck', 'C07', 'C07.R6',
+  (OBJ, "            try:\n                cimval = CIMInstanceName.from_wbem_uri(cimval)\n            except ValueError:\n                try:\n                    cimval = CIMDateTime(cimval)\n                except ValueError:\n                    cimval = _ensure_unicode(cimval)\n            return cimval\n",
+   "            if ':' in cimval:\n                try:\n                    return CIMInstanceName.from_wbem_uri(cimval)\n                except ValueError:\n                    pass\n            try:\n                cimval = CIMDateTime(cimval)\n            except ValueError:\n                cimval = _ensure_unicode(cimval)\n            return cimval\n"), 'content-precheck')
+V('c08-array-size-dropped', 'C08', 'C08.R8',
+  (MOFF, "    if len(p) == 5:\n        args['is_array'] = True\n        args['array_size'] = p[4]\n    quals = OrderedDict([(x.name, x) for x in p[1]])\n    p[0] = CIMParameter(p[3], 'reference', qualifiers=quals,",
+   "    if len(p) == 5:\n        args['is_array'] = True\n    quals = OrderedDict([(x.name, x) for x in p[1]])\n    p[0] = CIMParameter(p[3], 'reference', qualifiers=quals,"), 'p[4] array')
+V('c09-cache-before-commit', 'C09', 'C09.R9',
+  [(MOFF, "    p.parser.qualcache[ns][qualdecl.name] = qualdecl\n\n\ndef p_compilerDirective", "\n\ndef p_compilerDirective"),
+   (MOFF, "    ns = p.parser.target_namespace or p.parser.handle.default_namespace\n    if p.parser.verbose:\n        p.parser.log(\n            _format(\"Setting qualifier {0}:{1}\",\n                    ns, qualdecl.name))\n    try:\n        p.parser.handle.SetQualifier(qualdecl, namespace=ns)\n",
+    "    ns = p.parser.target_namespace or p.parser.handle.default_namespace\n    p.parser.qualcache[ns][qualdecl.name] = qualdecl\n    if p.parser.verbose:\n        p.parser.log(\n            _format(\"Setting qualifier {0}:{1}\",\n                    ns, qualdecl.name))\n    try:\n        p.parser.handle.SetQualifier(qualdecl, namespace=ns)\n")], 'before-commit')
+V('c10-key-truthiness', 'C10', 'C10.R10',
+  (OBJ, "                if prop in instance:\n                    keybindings[pname] = instance[prop]\n                else:\n                    if strict:",
+   "                value = instance.get(prop)\n                if value:\n                    keybindings[pname] = value\n                else:\n                    if strict:"), 'truthiness-of-value')
+V('c11-no-validation-loop', 'C11', 'C11.R1',
+  (IWPF, "        for ns, path in new_instance_paths.items():\n            instance_store = self.cimrepository.get_instance_store(ns)\n            if instance_store.object_exists(path):\n                raise CIMError(\n                    CIM_ERR_ALREADY_EXISTS,\n                    _format(\"New instance {0!A} already exists in namespace \"\n                            \"{1!A}. Cannot create new instance.\", path, ns))\n\n", ""), 'loop')
+V('c12-redeclared-no-init', 'C12', 'C12.R7',
+  (RESF, "                        new_quals[inh_qname].propagated = False\n                        self._init_qualifier(new_quals[inh_qname],\n                                             qualifier_store)\n", "                        new_quals[inh_qname].propagated = False\n"), 'flavors-not-initialised')
+V('c13-shadow-from-partial', 'C13', 'C13.R5',
+  (IWPF, "            assoc_namespaces = self.find_multins_association_ref_namespaces(\n                original_instance, namespace)", "            assoc_namespaces = self.find_multins_association_ref_namespaces(\n                modified_instance, namespace)"), 'decision-object-differs')
